@@ -2,6 +2,7 @@ package c20
 
 import (
 	"fmt"
+	"regexp"
 	"sort"
 	"syscall"
 
@@ -248,7 +249,7 @@ func (h *Harness) Execute(spec *RunSpec) (*RunReport, *Outcome, error) {
 			case "panic":
 				v.Class = "new-panic"
 				v.Detail = fmt.Sprintf("alone: %s %s; concurrently: panic %s", a.Kind, a.Brief, b.Brief)
-				v.Sig = "new-panic:" + b.Brief
+				v.Sig = "new-panic:" + digits.ReplaceAllString(b.Brief, "N")
 			case "abort":
 				v.Class = "deadlock-or-budget"
 				v.Detail = fmt.Sprintf("alone: %s %s; concurrently: %s", a.Kind, a.Brief, b.Brief)
@@ -268,6 +269,8 @@ func (h *Harness) Execute(spec *RunSpec) (*RunReport, *Outcome, error) {
 	rep.Nontrivial = len(spec.Tasks) >= 2 && st.SwitchesInOp >= 1 && (st.CrossReuse >= 1 || st.Contended >= 1 || st.OnceWait >= 1 || st.SharedSites >= 1)
 	return rep, out, nil
 }
+
+var digits = regexp.MustCompile(`[0-9]+`)
 
 // opSig is the operation class used in violation signatures.
 func opSig(st *Step) string {
